@@ -142,6 +142,12 @@ func GenFlipScript(r *Rng, maxFlips int, hist map[string]int) []string {
 		add("put %s @%d:%d", engKeys[r.Intn(4)], 1+r.Intn(20), r.Intn(9999))
 		hist["flip_with_hint"]++
 	}
+	if r.Chance(1, 3) {
+		// a finished merge left in the side directory: the sweep's Open adopts it (hint path, no re-scan)
+		add("del %s", engKeys[r.Intn(4)])
+		add("merge")
+		hist["flip_pending_merge"]++
+	}
 	add("dump")
 	add("close")
 	c2 := genCfg(r, o, hist)
